@@ -13,19 +13,54 @@ open SPModel SPModel.Text
 /-- A clause row holds exactly when the clause is satisfied. -/
 theorem opb_clause (cl : Clause) (hcl : ∀ l ∈ cl, l ≠ 0) (τ : Assign) :
     (opbClause cl).holds τ = clauseSat τ cl := by
-  sorry
+  have h := signed_lhs τ cl hcl
+  have h2 := any_iff_filter_length_pos (litVal τ) cl
+  rw [Bool.eq_iff_iff, OpbRow.holds_ge τ _ rfl, clauseSat, h2]
+  simp only [opbClause, OpbRow.lhs]
+  omega
 
 /-- A request row means what the request means ('exactly', 'fewer than', 'more than'). -/
 theorem opb_request (r : Request) (hr : ∀ l ∈ r.vars, 0 < l) (τ : Assign) :
     (opbRequest r).holds τ = r.holds τ := by
-  sorry
+  have h := pos_lhs τ r.vars hr
+  rw [Bool.eq_iff_iff]
+  cases hrel : r.rel
+  · rw [OpbRow.holds_eq τ _ (by simp [opbRequest, hrel])]
+    simp only [opbRequest, OpbRow.lhs, Request.holds, hrel, h]
+    simp
+    omega
+  · rw [OpbRow.holds_le τ _ (by simp [opbRequest, hrel])]
+    simp only [opbRequest, OpbRow.lhs, Request.holds, hrel, h]
+    simp
+    omega
+  · rw [OpbRow.holds_ge τ _ (by simp [opbRequest, hrel])]
+    simp only [opbRequest, OpbRow.lhs, Request.holds, hrel, h]
+    simp
+    omega
+
+/-- The constraint added between iterations excludes exactly the previous solution. -/
+theorem opb_block (sol : List Int) (hs : ∀ l ∈ sol, l ≠ 0) (τ : Assign) :
+    (opbBlock sol).holds τ = true ↔ ¬ (∀ l ∈ sol, litVal τ l = true) := by
+  have h := signed_lhs τ sol hs
+  have hle : (sol.filter (litVal τ)).length ≤ sol.length := List.length_filter_le _ _
+  rw [all_iff_filter_length, OpbRow.holds_le τ _ rfl]
+  simp only [opbBlock, OpbRow.lhs]
+  omega
 
 /-- The whole export. -/
 theorem opb_export (vals : List Clause) (reqs : List Request)
     (hv : ∀ c ∈ vals, ∀ l ∈ c, l ≠ 0) (hr : ∀ r ∈ reqs, ∀ l ∈ r.vars, 0 < l) (τ : Assign) :
     (opbExport vals reqs).all (fun row => row.holds τ) = true ↔
       (cnfSat τ vals = true ∧ ∀ r ∈ reqs, r.holds τ = true) := by
-  sorry
+  simp only [opbExport, opbRows, cnfSat, List.all_append, Bool.and_eq_true, List.all_eq_true,
+    List.mem_map, List.mem_reverse, forall_exists_index, and_imp, forall_apply_eq_imp_iff₂]
+  constructor
+  · rintro ⟨h1, h2⟩
+    exact ⟨fun c hc => by rw [← opb_clause c (hv c hc)]; exact h1 c hc,
+      fun r hr' => by rw [← opb_request r (hr r hr')]; exact h2 r hr'⟩
+  · rintro ⟨h1, h2⟩
+    exact ⟨fun c hc => by rw [opb_clause c (hv c hc)]; exact h1 c hc,
+      fun r hr' => by rw [opb_request r (hr r hr')]; exact h2 r hr'⟩
 
 /-- OPB export vs SAT encoding of the same clauses and requests. -/
 theorem opb_vs_sat (n : Nat) (vals : List Clause) (reqs : List Request)
@@ -33,12 +68,17 @@ theorem opb_vs_sat (n : Nat) (vals : List Clause) (reqs : List Request)
     (hr : ∀ r ∈ reqs, r.vars ≠ [] ∧ ∀ l ∈ r.vars, 0 < l ∧ l.natAbs ≤ n) (σ : Assign) :
     (opbExport vals reqs).all (fun row => row.holds σ) = true ↔
       ∃ φ, combineCnfWithRequests vals n reqs = .ok φ ∧ ∃ τ, Agree n σ τ ∧ cnfSat τ φ = true := by
-  sorry
-
-/-- The constraint added between iterations excludes exactly the previous solution. -/
-theorem opb_block (sol : List Int) (hs : ∀ l ∈ sol, l ≠ 0) (τ : Assign) :
-    (opbBlock sol).holds τ = true ↔ ¬ (∀ l ∈ sol, litVal τ l = true) := by
-  sorry
+  obtain ⟨φ, hφ, hiff, -⟩ := SPModel.C10.combine_models n vals reqs hv
+    (fun r hr' => ⟨(hr r hr').1, fun x hx => ⟨by have := ((hr r hr').2 x hx).1; omega,
+      ((hr r hr').2 x hx).2⟩⟩)
+  rw [opb_export vals reqs (fun c hc l hl => (hv c hc l hl).1)
+    (fun r hr' l hl => ((hr r hr').2 l hl).1) σ, ← hiff σ]
+  constructor
+  · intro h; exact ⟨φ, hφ, h⟩
+  · rintro ⟨φ', hφ', h⟩
+    rw [hφ] at hφ'
+    cases hφ'
+    exact h
 
 /-- Non-vacuity: 'more than 1 of {1,2,3}' is rendered `>= 2`. -/
 example : (opbRequest { rel := .gt, k := 1, vars := [1, 2, 3] }).rhs = 2 := by decide
